@@ -99,7 +99,7 @@ pub fn gen_query(rng: &mut Rng, k: usize, _tier: &str) -> J {
         aggs = aggs.iter().map(|a| a.replace("income", "users.income").replace("(age", "(users.age").replace("DISTINCT age", "DISTINCT users.age").replace("city", "users.city")).collect();
         (match rng.below(3) { 0 => vec![], 1 => vec!["users.city"], _ => vec!["orders.amount"] }, "users JOIN orders ON users.id = orders.user_id".to_string())
     } else {
-        (match rng.below(5) { 0 => vec![], 1 => vec!["city"], 2 => vec!["income"], 3 => vec!["age"], _ => vec!["city", "income"] }, "users".to_string())
+        (match rng.below(6) { 0 => vec![], 1 => vec!["city"], 2 => vec!["income"], 3 => vec!["age"], 4 => vec!["city", "seg"], _ => vec!["city", "income"] }, "users".to_string())
     };
     let where_ = if rng.chance(1, 4) { if from_orders { " WHERE qty > 2" } else if joined { " WHERE users.age > 30" } else { " WHERE age > 30" } } else { "" };
     let sel_keys: Vec<String> = keys.iter().enumerate().map(|(i, c)| format!("{c} AS k{i}")).collect();
